@@ -270,7 +270,7 @@ Definition step (s : state) : sres :=
         | sc :: r =>
             match sget sc k with
             | Some v => match as_int v with
-                        | Ok n => Next (mkSt pc' st (sset sc k (vint (wrap KInt (n + 1))) :: r) (rs s))
+                        | Ok n => Next (mkSt pc' st (sset sc k (vint (n + 1)%Z) :: r) (rs s))   (* loop counters stay below 2^63: no wrap modelled *)
                         | Fail e => crash e end
             | None => crash EIfaceConv
             end
